@@ -664,6 +664,14 @@ def fixed_runs(start):
                                                  "final_stderr": hx(b"err2"), "exit": 1}],
                                           "big": [{"stdout": {"seed": 5, "size": 70000, "ascii": True}, "stderr": {"seed": 6, "size": 3, "ascii": True}, "exit": 0}]},
                   flavour="combined"),
+        # the libtest-json report of failed tests under combined capture: a standard-harness transcript whose own
+        # output contains status lines of other (longer) names, one without the harness lines, one ending exactly
+        fixed_run(start + 8, "combined-report", {
+            "fixtures": [{"stdout": hx(b"\nrunning 1 test\ntest fixtures::case_1 ... ok\ntest fixtures::case_2 ... FAILED\n"
+                                        b"detail of case_2\ntest fixtures_more ... FAILED\nsummary: 1 of 2 failed\n"
+                                        b"test fixtures ... FAILED\n\nfailures:\n\nfailures:\n    fixtures\n"), "exit": 101}],
+            "custom": [{"stdout": hx(b"custom harness says\ntest custom ... FAILED\nand goes on\xff"), "exit": 2}],
+            "fine": [{"stdout": hx(b"\nrunning 1 test\ntest fine ... ok\n"), "exit": 0}]}, flavour="combined"),
         # a stream that ends inside an escape sequence (unterminated OSC title, half a colour sequence, a lone ESC):
         # the other stream of the same attempt is still shown completely, header included
         fixed_run(start + 7, "unterminated-escape", {
@@ -939,6 +947,57 @@ def display_blocks(data, raw):
     return blocks
 
 
+def libtest_report_text(data, test_name):
+    """what the libtest-json report stores as a failed test's output (nextest-runner reporter/structured/libtest.rs,
+    written from its documentation comment, not from the code): for the standard harness -- recognised by the line
+    "running 1 test" -- the lines between that line and the harness's own closing line "test <name> ... FAILED"
+    (exactly this test's name); for any other harness the whole captured output. Lossy UTF-8 either way."""
+    if b"running 1 test\n" not in data:
+        return lossy(data)
+    lines = data.split(b"\n")
+    if lines and lines[-1] == b"":
+        lines.pop()
+    lines = [l[:-1] if l.endswith(b"\r") else l for l in lines]
+    i = lines.index(b"running 1 test") if b"running 1 test" in lines else len(lines)
+    out = []
+    for l in lines[i + 1:]:
+        if l == b"test " + test_name.encode() + b" ... FAILED":
+            break
+        out.append(lossy(l) + "\n")
+    return "".join(out)
+
+
+def oracle_libtest_report(run, res, fin):
+    """combined capture: the `stdout` field of every failed test in the libtest-json report holds the captured bytes"""
+    fails, n = [], 0
+    scen = run["scenario"]["bins"]
+    got = {}
+    for line in res.get("stdout", "").split("\n"):     # not splitlines(): NEL / U+2028 occur raw inside the strings
+        try:
+            ev = json.loads(line)
+        except ValueError:
+            continue
+        if ev.get("type") == "test" and ev.get("event") == "failed" and "$" in ev.get("name", ""):
+            b_, n_ = ev["name"].split("$", 1)
+            got[(b_, re.sub(r"#\d+$", "", n_))] = ev.get("stdout")      # retried tests carry "#<attempt>"
+    for (b, name) in run["tests"]:
+        sts = fin.get((b, name))
+        if not sts or sts[-1]["result"]["kind"] in ("pass", "leak"):
+            continue
+        atts = scen[b]["tests"][name]["attempts"]
+        beh = atts[min(sts[-1]["attempt"], len(atts)) - 1]
+        if beh.get("terminated") or not textual(beh, OUT_KEYS + ERR_KEYS):
+            continue
+        want = libtest_report_text(attempt_combined(beh), name)
+        n += 1
+        if (b, name) not in got:
+            fails.append(f"libtest-json report: no `failed` event for {b} {name}")
+        elif (got[(b, name)] or "") != want:
+            fails.append(f"libtest-json report: {b} {name} stores {(got[(b, name)] or '')[:300]!r}, the test wrote "
+                         f"{attempt_combined(beh)[:300]!r} -> documented {want[:300]!r}")
+    return fails, n
+
+
 def oracle_run(run, res):
     """-> (list of failing clauses, list of known findings observed, counters)"""
     fails, known, cnt = [], [], {}
@@ -956,6 +1015,10 @@ def oracle_run(run, res):
     for rec in res["log"]:
         if rec.get("ev") == "start":
             started.setdefault((rec["bin"], rec["test"]), set()).add(rec["attempt"])
+    if comb:
+        f2, n2 = oracle_libtest_report(run, res, fin)
+        fails += f2
+        cnt["libtest_json_failed_reports"] = n2
     expected_streams = []
     for (b, name) in run["tests"]:
         atts = scen[b]["tests"][name]["attempts"]
